@@ -112,9 +112,26 @@ func (s *Sim) RandomOp(cfg GenCfg) {
 	case roll < 90: // polls
 		if len(s.MeltQs) > 0 {
 			q := s.MeltQs[s.Rng.Intn(len(s.MeltQs))]
-			if q.State == "PENDING" && cfg.LNOutcomes && s.Rng.Intn(2) == 0 {
-				s.W.Resolve(s.E.Name, q.Hash, s.Rng.Intn(2) == 0)
+			var pend []*MeltQ
+			for _, x := range s.MeltQs {
+				if x.State == "PENDING" {
+					pend = append(pend, x)
+				}
 			}
+			if len(pend) > 0 && s.Rng.Intn(4) != 0 {
+				q = pend[s.Rng.Intn(len(pend))]
+			}
+			if q.State == "PENDING" && cfg.LNOutcomes && s.Rng.Intn(2) == 0 {
+				ok := s.Rng.Intn(2) == 0
+				s.W.Resolve(s.E.Name, q.Hash, ok)
+				s.logf("ln resolves payment of %s success=%v", q.Id[:8], ok)
+				if s.Rng.Intn(2) == 0 {
+					// leave the discovery to whatever looks next (a state check, a melt, a poll)
+					s.done("ln-resolve")
+					return
+				}
+			}
+			s.AdoptTruth(q)
 			s.PollMelt(q)
 		}
 		if len(s.MintQs) > 0 {
@@ -293,7 +310,21 @@ func (s *Sim) randomMelt(cfg GenCfg) {
 			return
 		}
 	}
-	s.Melt(q, in, Proofs(in), s.randPlan(cfg), "")
+	if st, _ := s.Melt(q, in, Proofs(in), s.randPlan(cfg), ""); st == "PENDING" && cfg.LNOutcomes {
+		switch s.Rng.Intn(3) {
+		case 0: // Lightning finishes; whoever looks next discovers it
+			ok := s.Rng.Intn(2) == 0
+			s.W.Resolve(s.E.Name, q.Hash, ok)
+			s.logf("ln resolves payment of %s success=%v (undiscovered)", q.Id[:8], ok)
+			s.done("ln-resolve")
+		case 1:
+			ok := s.Rng.Intn(2) == 0
+			s.W.Resolve(s.E.Name, q.Hash, ok)
+			s.logf("ln resolves payment of %s success=%v", q.Id[:8], ok)
+			s.AdoptTruth(q)
+			s.PollMelt(q)
+		}
+	}
 }
 
 // NewMppMeltQuote requests an MPP melt quote paying partMsat of an external invoice of msat.
